@@ -231,7 +231,8 @@ func (svd SigVerificationDecorator) AnteHandle(ctx sdk.Context, tx sdk.Tx, simul
 			if !bytes.Equal(pubKey.Address(), acc.GetAddress()) {
 				// try verifying ethereum signature
 				if ethErr := VerifyEthereumSignature(pubKey, signerData, sig.Data, svd.signModeHandler, tx, svd.interfaceRegistry); ethErr == nil {
-					return next(ctx, tx, simulate)
+					// this signer is authenticated; the remaining signers (e.g. a separate fee payer) still have to be
+					continue
 				} else {
 					errMsg := fmt.Sprintf("ethereum signature verification failed; %s", ethErr.Error())
 					return ctx, sdkerrors.Wrap(sdkerrors.ErrUnauthorized, errMsg)
